@@ -27,10 +27,16 @@ Flows ==
    fetchRewrapped |-> <<S("Load", "fail", FALSE, "none"), S("Load", "fail", FALSE, "none"), S("Store", "fail", FALSE, "record+"), S("Load", "fail", FALSE, "none")>>,
    createToken    |-> <<S("Store", "fail", FALSE, "token+")>>,
    rotateRoots    |-> <<S("Load", "absent", FALSE, "none"), S("Store", "fail", FALSE, "roots=")>>,
+   rotateRoots0   |-> <<S("Load", "absent", FALSE, "none"), S("Store", "fail", FALSE, "roots=")>>,   \* from empty storage
    reinitRoots    |-> <<S("Remove", "fail", FALSE, "roots-"), S("Load", "absent", FALSE, "none"), S("Store", "fail", FALSE, "roots=")>>,
    rotateNode     |-> <<S("Load", "fail", FALSE, "none"), S("Load", "absent", FALSE, "none"), S("Load", "fail", FALSE, "none"),
                         S("Store", "fail", FALSE, "record+"), S("Load", "stop", FALSE, "none"), S("Load", "fail", FALSE, "none")>>,
    serverCerts    |-> <<S("Load", "fail", FALSE, "none"), S("Load", "fail", FALSE, "none")>>,
+   \* the node reports a node id and the storage looks records up by node id
+   serverCertsNodeId |-> <<S("LoadByNodeId", "fail", FALSE, "none"), S("Load", "fail", FALSE, "none")>>,
+   \* a second call for the same node on the same storage, after a first, fault-free one and a
+   \* reinitialisation of the roots (nothing is remembered between calls: what is handed out is issued by the roots in storage)
+   serverCertsAgain  |-> <<S("Load", "fail", FALSE, "none"), S("Load", "fail", FALSE, "none")>>,
    nodeNew        |-> <<S("Store", "fail", FALSE, "creds=")>>,
    nodeHandle     |-> <<S("Store", "fail", FALSE, "creds=")>>,
    \* the node handles a server-led response; when that fails it handles the SAME response again with the same object: the
